@@ -121,6 +121,8 @@ def value_class(v):
 
 
 def short(v):
+    if isinstance(v, (list, tuple)) and len(v) > 6:
+        return '[%s, ... %d items]' % (', '.join(short(e) for e in v[:3]), len(v))
     r = repr(v)
     return r if len(r) < 60 else r[:57] + '...'
 
@@ -323,6 +325,9 @@ def run_class(ctx, key):
                     continue
                 if not CC.same(a, b, v):
                     for sub in CC.diff_paths(a, b, v, is_defined=nested_defined):
+                        if not ctx.wants('%s|mismatch:%s%s' % (cname, p, '.' + sub if sub else '')):
+                            ctx.violation('%s|mismatch:%s%s' % (cname, p, '.' + sub if sub else ''), 'further witness', None)
+                            continue
                         ctx.violation('%s|mismatch:%s%s' % (cname, p, '.' + sub if sub else ''),
                                       'field %s%s of %s decodes to %s, original %s (%s)'
                                       % (p, '.' + sub if sub else '', cname, short(b), short(a), v.name),
@@ -430,6 +435,59 @@ def roundtrip_message(ctx, cls, data, v, label, mkind=None):
     return m1, d1
 
 
+def message_field_walk(ctx, msg, decoded, v, label):
+    """Field-by-field comparison of a whole message with its decoded self: the header and every batch item, one
+    constructor field at a time (the message classes define no __eq__, and a field that write() drops for some value
+    leaves the bytes stable, so only the comparison with what the caller put in shows the loss).  A field that does
+    not change the encoding under this version when cleared is not encoded under it and is skipped."""
+    pairs = []
+    for hname in ('request_header', 'response_header'):
+        if getattr(msg, hname, None) is not None and getattr(decoded, hname, None) is not None:
+            pairs.append((hname, getattr(msg, hname), getattr(decoded, hname)))
+    a, b = list(getattr(msg, 'batch_items', None) or []), list(getattr(decoded, 'batch_items', None) or [])
+    if len(a) != len(b):
+        ctx.violation('%s|mismatch:batch_items' % label.split(':')[0], '%d batch items written, %d decoded' % (len(a), len(b)), None)
+        return
+    pairs += [('batch_item', x, y) for x, y in zip(a, b)]
+    base = CC.try_encode(msg, v)
+    for where, o, d in pairs:
+        for p_ in codec.init_params(type(o)):
+            if p_ in ('request_payload', 'response_payload'):
+                continue            # payload classes have their own field-level cases
+            try:
+                orig = getattr(o, p_)
+            except Exception:
+                continue
+            if orig is None:
+                continue
+            encoded_here = False
+            for alt in ([None, not orig] if isinstance(orig, bool) else [None]):
+                # some other value of the field changes the bytes <=> the version encodes the field at all
+                try:
+                    setattr(o, p_, alt)
+                    other = CC.try_encode(msg, v)
+                except Exception:
+                    other = None
+                finally:
+                    try:
+                        setattr(o, p_, orig)
+                    except Exception:
+                        pass
+                if other is None or other != base:
+                    encoded_here = True
+            if not encoded_here:
+                continue            # not encoded under this version
+            ctx.count('message_fields_compared')
+            try:
+                got = getattr(d, p_)
+            except Exception:
+                got = None
+            if not CC.same(orig, got, v):
+                ctx.violation('%s.%s|mismatch:%s' % (type(msg).__name__, where, p_),
+                              'field %s of the %s of a %s decodes to %s, original %s (%s)'
+                              % (p_, where, label, short(got), short(orig), v.name), {'hex': (base or b'').hex()[:600]})
+
+
 def payload_label(req_or_resp_tree, kind):
     it = T.kid(req_or_resp_tree, T.T_BATCH_ITEM)
     op = T.val(it, T.T_OPERATION) if it else None
@@ -466,6 +524,9 @@ def run_messages(ctx, case):
                     kw['asynchronous'] = False
                 try:
                     req = rig.build_request(version, [o for _, o in named], **kw)
+                    for it_ in req.batch_items:
+                        # every value a caller can give the field, under every version (only KMIP 2.0 encodes it)
+                        it_.ephemeral = rng.choice((None, None, True, False))
                     data = rig.encode_request(req, version)
                 except Exception as e:
                     if CC.classify_write_error(e, False) != 'rejected':
@@ -489,6 +550,7 @@ def run_messages(ctx, case):
                 if d1 is not None and d1 != data:
                     ctx.violation('%s|reencode' % label, 're-encoding a decoded request differs from the original bytes',
                                   {'orig': data.hex()[:800], 're': d1.hex()[:800], 'version': v.name})
+                message_field_walk(ctx, req, m1, v, label)
                 # decode-first clause on mutated-but-accepted encodings
                 for mt, mk in leaf_mutations(tree, rng):
                     try:
